@@ -170,7 +170,7 @@ IMPLIED = [
 
 
 def check_entry(ctx, prog, f):
-    ctx.visit(f)
+    ctx.visit(f, weak=True)
     # constructors: the whole chain builds the object; checked forms of an operation: the contract is that of the `_internal`
     # body they wrap (beliefs further down are conditional on that body's own tests)
     shallow = "BlockHashPositionArrayImpl" in f.path
